@@ -52,7 +52,24 @@ def explore(nargs, cfg, funcs, index, enums):
             return Ok(Enum("CommandResult", "Failure", []))
         return Err(Enum("CommandExecutionError", "UrgentlyFailed", []))
 
-    natives = {"<IdReader as ArgumentReader>::next": reader_next, "CommandBuilder::execute": execute}
+    # the number of characters of an argument is symbolic too: 1 <= chars <= bytes (multi-byte text); code that counts characters where the
+    # property speaks of bytes then breaks the -s obligation
+    nchars = {i: z3.Int("chars%d" % i) for i in range(nargs)}
+    nchars["cmd"] = z3.Int("chars_cmd")
+    base += [z3.And(nchars[i] >= 1, nchars[i] <= lens[i]) for i in range(nargs)] + [nchars["cmd"] >= 1, nchars["cmd"] <= cmdlen]
+
+    def osval_of(v):
+        v = models.deref(v)
+        for _ in range(6):
+            if isinstance(v, BoxObj): v = v.cell[0]
+            elif isinstance(v, Ptr): v = v.load()
+            elif isinstance(v, Struct) and v.ty in ("LossyV", "CharsV"): v = v.fields[0]
+            else: break
+        return v
+    natives = {"<IdReader as ArgumentReader>::next": reader_next, "CommandBuilder::execute": execute,
+               "OsStr::to_string_lossy": lambda m, a: Struct("LossyV", [osval_of(a[0])]), "<Cow as Deref>::deref": lambda m, a: a[0],
+               "str::chars": lambda m, a: Struct("CharsV", [osval_of(a[0])]), "<Chars as Iterator>::count": lambda m, a: nchars[osval_of(a[0]).ident],
+               "str::len": lambda m, a: osval_of(a[0]).length}
     m = Machine(funcs, index, enums, models, natives=natives)
     m.base_constraints = base
     m.pending = [[]]
